@@ -159,8 +159,11 @@ def opCliMeth (args : List SExp) : Option OpResult := do
           (if isMs then s!"http {st} decodeErr" else if kind = "getobj" then s!"http {st} text" else s!"http {st} nothing")
         else if isMs then (if st = 207 then "ok" else "plain")
         else "ok"
+      -- an error exactly when the status or the body is bad: the good answer under a good status is no error
+      let good := if isMs then st = 207 else st / 100 = 2
       pure ⟨impl, fun got => judgeClass st isMs (split got).1 ++
-        (if got.endsWith " LEAK" then [("C14", "error-response-surfaced-as-data")] else [])⟩
+        (if got.endsWith " LEAK" then [("C14", "error-response-surfaced-as-data")] else []) ++
+        (if good && (split got).1 ≠ "ok" && (split got).1 ≠ "panic" && (split got).1 ≠ "hang" then [("C14", "good-response-reported-as-error")] else [])⟩
     | .list [.atom "trunc", st] =>
       let st ← st.nat?
       let impl := if isMs then "plain" else "?object-parser-not-modelled"
@@ -170,6 +173,13 @@ def opCliMeth (args : List SExp) : Option OpResult := do
       pure ⟨"?object-parser-not-modelled", fun got =>
         let c := (split got).1
         if c = "panic" || c = "hang" then [("C14", s!"client-{c}-in-object-parser")] else []⟩
+    | .list [.atom "carry", _] =>
+      -- two resources, the second reporting under 404 what the first reports under 200
+      let judge : String → List (String × String) := fun got =>
+        let (c, leak) := split got
+        (if c = "panic" || c = "hang" then [("C14", s!"client-{c}")] else []) ++
+        (if leak then [("C14", "value-of-another-resource-surfaced-for-a-404-property")] else [])
+      pure ⟨"?placement-judged-by-spec", judge⟩
     | .list [.atom "place", .atom rs, .atom pst, nh, nresp] =>
       let nh ← nh.nat?; let nresp ← nresp.nat?
       let rsFailed := match rs.toNat? with | some c => c / 100 ≠ 2 | none => false
